@@ -51,7 +51,9 @@ def case(draw, tier):
     if shape == "map":
         keys = {"live": sorted(draw(st.sets(st.integers(0, 5), min_size=1, max_size=4)))}
         keys["bad"] = [k for k in keys["live"] if draw(st.integers(0, 1)) == 0] or keys["live"][:1]
-    return {"end": horizon, "shape": shape, "s0": s0, "s1": s1, "throw_times": throw_times, "self_sched": self_sched,
+    # a node ranked BEFORE the thrower inside the wrapped / mapped graph (the cycle after a captured throw must start with it)
+    pre = draw(st.booleans())
+    return {"pre": pre, "end": horizon, "shape": shape, "s0": s0, "s1": s1, "throw_times": throw_times, "self_sched": self_sched,
             "throw_ords": throw_ords, "period": period,
             "second": second, "fn": draw(st.sampled_from(["sum", "acc", "count"])), "keys": keys}
 
@@ -88,7 +90,8 @@ def build(case, faults: bool):
             stmts += [T2, {"id": "err2", "op": "errcap", "of": "T2"}, {"id": "r_err2", "op": "node", "ins": ["err2"], "deep": True},
                       {"id": "r_T2", "op": "node", "ins": ["T2"]}]
     elif case["shape"] == "try":
-        body = [dict(T, ins=[{"arg": 0}]), {"id": "post", "op": "node", "ins": ["T"], "out": "TS[int]", "fn": "sum", "bias": 1, "log_inputs": False}]
+        body = ([{"id": "pre", "op": "node", "ins": [{"arg": 0}], "out": "TS[int]", "fn": "sum", "bias": 100, "log_inputs": False}, dict(T, ins=["pre"])]
+                if case.get("pre") else [dict(T, ins=[{"arg": 0}])]) + [{"id": "post", "op": "node", "ins": ["T"], "out": "TS[int]", "fn": "sum", "bias": 1, "log_inputs": False}]
         subs["G"] = {"params": ["TS[int]"], "names": ["x"], "out": "TS[int]", "stmts": body, "ret": "post"}
         stmts += [{"id": "te", "op": "op", "name": "try_except", "args": [{"fn": "G"}, {"ts": "s0"}], "has_out": True},
                   {"id": "r_te", "op": "node", "ins": ["te"], "deep": True, "valid": []}]
@@ -96,12 +99,16 @@ def build(case, faults: bool):
         live, bad = case["keys"]["live"], case["keys"]["bad"]
         # child: throws when its element value is negative; the dictionary script makes bad keys negative at the throw times
         body = [{"id": "f", "op": "node", "ins": [{"arg": 0}], "out": "TS[int]", "fn": case["fn"], "log_inputs": False}]
+        if case.get("pre"):
+            # sum with bias 0 and one input is the identity: `f` still sees the (possibly negative) element value
+            body = [{"id": "pre", "op": "node", "ins": [{"arg": 0}], "out": "TS[int]", "fn": "sum", "log_inputs": False}, dict(body[0], ins=["pre"])]
+        fnode = body[-1]
         if case["self_sched"] in ("every", "every_tag"):
             # periodic child: while its element is negative it throws in the cycles fired by its own alarm too
-            body[0]["sched"] = {"every": [["s", "rel", case.get("period", 2), "a" if case["self_sched"] == "every_tag" else None]]}
-            body[0]["tags"] = ["a"]
+            fnode["sched"] = {"every": [["s", "rel", case.get("period", 2), "a" if case["self_sched"] == "every_tag" else None]]}
+            fnode["tags"] = ["a"]
         if faults:
-            body[0]["throw"] = {"neg": True}
+            fnode["throw"] = {"neg": True}
         subs["F"] = {"params": ["TS[int]"], "names": ["x"], "out": "TS[int]", "stmts": body, "ret": "f"}
         script = []
         for t, ops in case["s0"]:
@@ -264,5 +271,7 @@ def check(case, ctx) -> Result:
         res.labels.append("self_scheduling_thrower")
     if case["second"]:
         res.labels.append("two_failing_nodes")
+    if case.get("pre") and case["shape"] != "node":
+        res.labels.append("node_ranked_before_thrower_in_child")
     res.summary = {"throw_times": throw_eval_times[:12], "shape": case["shape"]}
     return res
